@@ -288,3 +288,20 @@ PROPS["C14"] = {
         {"pkg": "verifx/c14", "run": "^TestC14KnownOddCandidate$", "all": {"shards": 1, "timeout": 120}},
     ],
 }
+
+PROPS["C13"] = {
+    "title": "Transaction pool: per-account nonce order, no stale or duplicate entries",
+    "level": "exploration",
+    "technique": "model-based stateful PBT (rapid) on the real MemPool over a real, reorganising chain service; invariant oracle on the pool's lists / hash index / counters / producer offer relative to the node's state nonces; concurrent schedule + race detector in the thorough tier",
+    "level_text": ("Generated histories of submissions (arbitrary nonce order, duplicates, same-nonce replacements, resubmission of executed or removed transactions), removals, blocks built from the pool's own offer or from outside transactions, and real reorganisations of depth 1-3 of the node; "
+                   "the pool receives exactly the notifications the chain service emits (one per executed block, one per abandoned transaction), in order. After every step: every account list is strictly ascending by nonce and holds nothing at or below the state nonce, the ready prefix is exactly the gap-free run from state+1, "
+                   "the producer is offered exactly those runs, hashes are unique and the hash index equals the held set, exist() agrees, Size() and the unconfirmed report equal recomputed totals, and each submission is accepted iff its nonce is above the state nonce and neither the nonce slot nor the hash is taken."),
+    "level_note": "Amounts are tiny and balances huge, so affordability never filters (the balance filter is exercised by C14's hostile amounts only for crashes). Eviction by age uses the wall clock and is exercised only in the thorough tier with a shimmed period.",
+    "rule": ("a case = configuration + 3-25 steps; non-trivial = the history contains a gap fill, a state change (block or reorganisation), and a removal inside the ready run or a reorganisation; distinct = distinct (configuration, step list)."),
+    "assumptions": ["stub VM not involved (transfers only)", "permissive test consensus for the node"],
+    "units": [
+        {"pkg": "verifx/c13", "run": "^TestC13Pool$",
+         "quick": {"checks": 120, "shards": 12, "timeout": 400},
+         "thorough": {"checks": 2500, "shards": 16, "timeout": 1700}},
+    ],
+}
